@@ -19,7 +19,8 @@ import (
 	"verifsim/kernel"
 )
 
-var kvIDs = []string{"a", "b", "c", "current", "next", "roots"}
+// "ab"/"xa" end in other IDs of the alphabet: an ID is a whole key, not a suffix
+var kvIDs = []string{"a", "b", "c", "current", "next", "roots", "ab", "xa"}
 var kvTypes = []string{"NodeCredentials", "NodeInformation", "RootCertificates", "ServerLedActivationToken"}
 
 func kvListable(t string) bool { return t != "ServerLedActivationToken" }
@@ -28,15 +29,57 @@ func kvListable(t string) bool { return t != "ServerLedActivationToken" }
 func kvMsg(t, id, val string) nodeenrollment.MessageWithId {
 	switch t {
 	case "NodeCredentials":
-		return &types.NodeCredentials{Id: id, RegistrationNonce: []byte(val)}
+		return &types.NodeCredentials{Id: id, RegistrationNonce: []byte(val), CertificateBundles: []*types.CertificateBundle{{CertificateDer: []byte(val)}}}
 	case "NodeInformation":
-		return &types.NodeInformation{Id: id, NodeId: val}
+		return &types.NodeInformation{Id: id, NodeId: val, CertificateBundles: []*types.CertificateBundle{{CertificateDer: []byte(val)}}}
 	case "RootCertificates":
-		return &types.RootCertificates{Id: id, WrappingKeyId: val}
+		return &types.RootCertificates{Id: id, WrappingKeyId: val, Current: &types.RootCertificate{Id: val}}
 	case "ServerLedActivationToken":
 		return &types.ServerLedActivationToken{Id: id, WrappingKeyId: val, CreationTime: timestamppb.Now()}
 	}
 	return nil
+}
+
+func kvEmpty(t, id string) nodeenrollment.MessageWithId {
+	switch t {
+	case "NodeCredentials":
+		return &types.NodeCredentials{Id: id}
+	case "NodeInformation":
+		return &types.NodeInformation{Id: id}
+	case "RootCertificates":
+		return &types.RootCertificates{Id: id}
+	case "ServerLedActivationToken":
+		return &types.ServerLedActivationToken{Id: id}
+	}
+	return nil
+}
+
+// kvDirty is a destination message that already holds values (a reused message): a load must replace all of it.
+func kvDirty(t, id string) nodeenrollment.MessageWithId {
+	d := []byte("left-over")
+	switch t {
+	case "NodeCredentials":
+		return &types.NodeCredentials{Id: id, RegistrationNonce: d, CertificateBundles: []*types.CertificateBundle{{CertificateDer: d}}, EncryptionPrivateKeyBytes: d}
+	case "NodeInformation":
+		return &types.NodeInformation{Id: id, NodeId: "left-over", CertificateBundles: []*types.CertificateBundle{{CertificateDer: d}}, RegistrationNonce: d}
+	case "RootCertificates":
+		return &types.RootCertificates{Id: id, WrappingKeyId: "left-over", Next: &types.RootCertificate{Id: "left-over"}}
+	case "ServerLedActivationToken":
+		return &types.ServerLedActivationToken{Id: id, WrappingKeyId: "left-over", CreationTimeMarshaled: d}
+	}
+	return nil
+}
+
+// kvExact: is the loaded message exactly what kvMsg stored for its value (nothing missing, nothing left over)?
+func kvExact(t, id string, m nodeenrollment.MessageWithId) bool {
+	want := kvMsg(t, id, kvVal(m))
+	if tok, ok := m.(*types.ServerLedActivationToken); ok {
+		tok = proto.Clone(tok).(*types.ServerLedActivationToken)
+		tok.CreationTime = nil
+		want.(*types.ServerLedActivationToken).CreationTime = nil
+		return proto.Equal(tok, want)
+	}
+	return proto.Equal(m, want)
 }
 
 func kvVal(m nodeenrollment.MessageWithId) string {
@@ -57,6 +100,8 @@ type kvIn struct {
 	Op, Type, ID, Val string
 	// Cancel: the caller's context is already cancelled when the operation is made
 	Cancel bool
+	// Dirty: a load into a message that already holds other values
+	Dirty bool
 }
 
 type kvOut struct {
@@ -86,11 +131,17 @@ func kvApply(st nodeenrollment.Storage, in kvIn) kvOut {
 			}
 		}
 	case "load":
-		m := kvMsg(in.Type, in.ID, "")
+		m := kvEmpty(in.Type, in.ID)
+		if in.Dirty {
+			m = kvDirty(in.Type, in.ID)
+		}
 		err := st.Load(contextBG, m)
 		switch {
 		case err == nil:
 			out.Val = kvVal(m)
+			if !kvExact(in.Type, in.ID, m) {
+				out.Val = "<not exactly the stored message: " + out.Val + ">"
+			}
 		case errors.Is(err, nodeenrollment.ErrNotFound):
 			out.NotFound = true
 		default:
@@ -238,6 +289,9 @@ func propC19(r *kernel.Run) {
 		}
 		if tp.Draw(10) == 0 {
 			in.Cancel = true
+		}
+		if in.Op == "load" && tp.Draw(2) == 0 {
+			in.Dirty = true
 		}
 		return in
 	}
